@@ -11,7 +11,8 @@ import (
 
 // Reference Store, scripted Executor and ghost history shared by the C30
 // harnesses (API-only: implements the package's Store / Executor / Task
-// interfaces; no access to manager internals).
+// interfaces; no access to manager internals). The store never fails except
+// for a bounded number of transient faults during start-up recovery (storeFault).
 
 const verifTasks = 2
 
@@ -58,6 +59,27 @@ type verifWorld struct {
 	removedEarly  bool
 	crashBudget   int
 	crashes       int
+
+	// transient store faults: while a manager is starting (starting == true:
+	// the start-up recovery of NewManager) a store call may fail with an I/O
+	// error and leave the store unchanged, at most faultBudget times per history.
+	starting    bool
+	faultBudget int
+	faults      int
+}
+
+var errVerifStoreFault = errors.New("database is locked")
+
+// storeFault (world locked): does this store call of the start-up recovery
+// fail? The fault is transient: the same call succeeds when it is repeated
+// once the budget is used up.
+func (w *verifWorld) storeFault() bool {
+	if w.starting && w.faultBudget > 0 && verif.Bool("store_call_fails_during_startup") {
+		w.faultBudget--
+		w.faults++
+		return true
+	}
+	return false
 }
 
 // lock/unlock guard the world natively. Under the engine threads switch only at
@@ -155,6 +177,9 @@ func (s *verifStore) MarkFailed(t Task) error {
 	w.lock()
 	w.deadIfStale(s.epoch)
 	defer w.unlock()
+	if w.storeFault() {
+		return errVerifStoreFault
+	}
 	i := s.id(t)
 	if !w.rows[i].present {
 		return ErrTaskNotFound
@@ -172,6 +197,9 @@ func (s *verifStore) get(pending bool) ([]Task, error) {
 	w.lock()
 	w.deadIfStale(s.epoch)
 	defer w.unlock()
+	if w.storeFault() {
+		return nil, errVerifStoreFault
+	}
 	var out []Task
 	for i, r := range w.rows {
 		if r.present && r.pending == pending {
